@@ -1149,3 +1149,111 @@ Example example_all_bus_roundtrip :
                     ("c_2", Some 1, [1], fl_zero, 2, []); ("fx", Some 1, [], fl_zero, 0, [ValFloat (mkfl 1 1)]) ]);
                  (0, 0, 0, [], [("n", None, [], fl_zero, 3, [ValFloat (mkfl 1 1)])]) ].
 Proof. eexists. split; [vm_compute; reflexivity|]. split; vm_compute; reflexivity. Qed.
+
+(* ------------------------------------------------------------------------------------------
+   the fragment of RoundTripMux (no attributes) lies inside the merged fragment: its theorem is a corollary
+   ------------------------------------------------------------------------------------------ *)
+Lemma strip_sig_id : forall s, s_startval s = fl_zero -> s_sendtype s = 0 -> s_attrs s = [] -> strip_sig s = s.
+Proof. intros s H1 H2 H3. destruct s. cbn in *. subst. reflexivity. Qed.
+Lemma strip_node_id : forall n, n_attrs n = [] -> strip_node n = n.
+Proof. intros n H. destruct n. cbn in *. subst. reflexivity. Qed.
+
+Lemma mmessage_zero : forall es names m, mmessage es names m ->
+  forall s, In s (m_signals m) -> s_startval s = fl_zero /\ s_sendtype s = 0 /\ s_attrs s = [].
+Proof.
+  intros es names m [_ [_ [_ [_ [_ [_ [_ [[_ [_ [Htops [_ [Hch _]]]]] _]]]]]]]] s Hs.
+  destruct (is_topb s) eqn:Et.
+  - rewrite Forall_forall in Htops. destruct (Htops s (proj2 (filter_In _ _ _) (conj Hs Et))) as [_ [_ [H1 [H2 [H3 _]]]]]. auto.
+  - destruct (Hch s Hs Et) as [mx [_ [_ [_ [_ [_ [_ [H1 [H2 [H3 _]]]]]]]]]]. auto.
+Qed.
+
+Lemma mbus_strip_id : forall b, mbus b -> strip_bus b = b.
+Proof.
+  intros b [Ha [Hn [_ [_ [_ [Hm _]]]]]]. destruct b as [bn bd ba bns bes bms]. cbn [b_attrs b_nodes b_messages b_enums] in *. subst ba.
+  unfold strip_bus. cbn [b_name b_desc b_nodes b_enums b_messages]. f_equal.
+  - rewrite <- (map_id bns) at 2. apply map_ext_in. intros n Hin. rewrite Forall_forall in Hn. apply strip_node_id. apply Hn. assumption.
+  - rewrite <- (map_id bms) at 2. apply map_ext_in. intros m Hin. rewrite Forall_forall in Hm. pose proof (Hm m Hin) as Hmm.
+    pose proof (mmessage_zero _ _ _ Hmm) as Hz. destruct Hmm as [A1 [A2 [A3 [A4 [A5 _]]]]].
+    destruct m as [ci nm sz od cy dl sd st sn rc ds at_ sg]. cbn [m_attrs m_cycle m_delay m_startdelay m_sendtype m_signals] in *. subst.
+    unfold strip_msg. cbn [m_canid m_name m_size m_order m_sender m_receivers m_desc m_signals]. f_equal.
+    rewrite <- (map_id sg) at 2. apply map_ext_in. intros s Hs. destruct (Hz s Hs) as [Z1 [Z2 Z3]]. apply strip_sig_id; assumption.
+Qed.
+
+Theorem mbus_ambus : forall b, mbus b -> ambus b.
+Proof.
+  intros b Hb. pose proof (mbus_strip_id b Hb) as Hs. pose proof Hb as [Ha [Hn [_ [_ [_ [Hm [_ [_ [Hg _]]]]]]]]].
+  assert (Hu0 : user_asgs_ok []) by (split; constructor).
+  assert (HTm : forall m, In m (b_messages b) -> TM_msg m = []).
+  { intros m Hin. rewrite Forall_forall in Hm. pose proof (Hm m Hin) as Hmm. pose proof (mmessage_zero _ _ _ Hmm) as Hz.
+    destruct Hmm as [A1 [A2 [A3 [A4 [A5 _]]]]]. unfold TM_msg, wk_msg. rewrite A1, A2, A3, A4, A5. cbn [sort_attrs sort_by fold_right Z.eqb app map].
+    assert (G : forall l, (forall s, In s l -> In s (m_signals m)) -> flat_map (T_sig (u32 (m_canid m))) l = []).
+    { induction l as [|s r IH]; intros Hl; [reflexivity|]. cbn [flat_map]. rewrite IH by (intros x Hx; apply Hl; right; assumption).
+      destruct (Hz s (Hl s (or_introl eq_refl))) as [Z1 [Z2 Z3]]. unfold T_sig, wk_sig. rewrite Z1, Z2, Z3. reflexivity. }
+    apply G. intros s Hs'. apply (SX_in m s Hs'). }
+  assert (HT : TM_bus b = []).
+  { unfold TM_bus. rewrite Ha. cbn [sort_attrs sort_by fold_right map app].
+    assert (G : forall ns, (forall n, In n ns -> n_attrs n = []) -> flat_map (TM_node b) ns = []).
+    { induction ns as [|n r IH]; intros Hns; [reflexivity|]. cbn [flat_map]. rewrite IH by (intros x Hx; apply Hns; right; assumption).
+      unfold TM_node. rewrite (Hns n (or_introl eq_refl)). cbn [sort_attrs sort_by fold_right map app].
+      assert (Gm : forall l, (forall m, In m l -> In m (b_messages b)) -> flat_map TM_msg l = []).
+      { induction l as [|m q IHq]; intros Hl; [reflexivity|]. cbn [flat_map]. rewrite (HTm m (Hl m (or_introl eq_refl))), IHq by (intros x Hx; apply Hl; right; assumption). reflexivity. }
+      rewrite Gm; [reflexivity|]. intros m Hm'. apply filter_In in Hm'. tauto. }
+    apply G. intros n Hin. rewrite Forall_forall in Hn. apply Hn. assumption. }
+  split; [exact Hg|]. split; [rewrite Hs; exact Hb|]. split; [rewrite HT; split; [intros t []|intros t t' []]|]. split; [rewrite Ha; exact Hu0|]. split.
+  - eapply Forall_impl; [|exact Hn]. intros n Hna. rewrite Hna. exact Hu0.
+  - apply Forall_forall. intros m Hin. rewrite Forall_forall in Hm. pose proof (Hm m Hin) as Hmm. pose proof (mmessage_zero _ _ _ Hmm) as Hz.
+    destruct Hmm as [A1 [_ [_ [_ [A5 _]]]]]. rewrite A1, A5. split; [exact Hu0|]. split; [lia|].
+    apply Forall_forall. intros s Hs'. destruct (Hz s Hs') as [Z1 [Z2 Z3]]. rewrite Z1, Z2, Z3. split; [exact Hu0|]. split; [|lia].
+    first [left; split; reflexivity|right; reflexivity].
+Qed.
+
+Corollary export_import_mux_from_all : forall b, mbus b -> exists b', export_import b = Ok b' /\ proj_bus b' = proj_bus b.
+Proof. intros b Hb. apply export_import_all_thm. apply mbus_ambus. assumption. Qed.
+
+(* the fragments of RoundTripEnum / RoundTripAttr lie inside as well, when the signal ids of every message are
+   distinct (those fragments never look at ids; the multiplexer fragment resolves parents through them) *)
+Lemma emessage_mmessage : forall es names m, emessage es names m -> NoDup (map s_id (m_signals m)) -> mmessage es names m.
+Proof.
+  intros es names m [Ha [Hc [Hdl [Hsd [Hst [Hid [Hsz [Hps [Hlay [Hnn [Hsn [Hrc [Hrn Hre]]]]]]]]]]]]] Hids.
+  assert (Hall : filter is_topb (m_signals m) = m_signals m).
+  { apply filter_all. intros s Hs. rewrite Forall_forall in Hps. destruct (Hps s Hs) as [Hp _]. unfold is_topb. rewrite Hp. reflexivity. }
+  assert (Hnm : forall s, In s (m_signals m) -> is_muxb s = false).
+  { intros s Hs. rewrite Forall_forall in Hps. destruct (Hps s Hs) as [_ [_ [_ [_ [_ [_ Hk]]]]]]. unfold is_muxb. destruct (s_kind s); try reflexivity. destruct Hk. }
+  refine (conj Ha (conj Hc (conj Hdl (conj Hsd (conj Hst (conj Hid (conj Hsz (conj _ (conj _ (conj Hsn (conj Hrc (conj Hrn Hre)))))))))))).
+  - split; [exact Hids|]. split; [exact Hnn|]. split.
+    { rewrite Hall. eapply Forall_impl; [|exact Hps]. intros s [H1 [H2 [H3 [H4 [H5 [H6 H7]]]]]].
+      refine (conj H1 (conj H2 (conj H3 (conj H4 (conj H5 (conj H6 _)))))). destruct (s_kind s); try assumption. destruct H7. }
+    split; [intros a b0 Ha0 _ Hma _; rewrite (Hnm a Ha0) in Hma; discriminate|].
+    split; [intros c Hc0 Hct; rewrite <- Hall in Hc0; apply filter_In in Hc0; destruct Hc0 as [_ Hc0]; congruence|].
+    intros c c' Hc0 _ Hct. rewrite <- Hall in Hc0. apply filter_In in Hc0. destruct Hc0 as [_ Hc0]. congruence.
+  - rewrite Hall. exact Hlay.
+Qed.
+
+Lemma SX_plain : forall m, (forall s, In s (m_signals m) -> is_topb s = true /\ is_muxb s = false) -> SX m = m_signals m.
+Proof.
+  intros m H. unfold SX. rewrite filter_all by (intros s Hs; apply (H s Hs)).
+  assert (G : forall l, (forall s, In s l -> is_muxb s = false) -> flat_map (tx (m_signals m)) l = l).
+  { induction l as [|t r IH]; intros Hl; [reflexivity|]. cbn [flat_map]. unfold tx at 1. rewrite (Hl t (or_introl eq_refl)), IH by (intros x Hx; apply Hl; right; assumption). reflexivity. }
+  apply G. intros s Hs. apply (H s Hs).
+Qed.
+
+Theorem abus_ambus : forall b, abus b -> Forall (fun m => NoDup (map s_id (m_signals m))) (b_messages b) -> ambus b.
+Proof.
+  intros b [Hg [Hsb [HT [Hub [Hun Hum]]]]] Hids.
+  pose proof Hsb as [Ha [Hn [Hnn [Hdm [Hlen [Hm [Hcan [Hpair [Hgg Hes]]]]]]]]].
+  cbn [b_messages b_nodes b_enums strip_bus] in Hm.
+  assert (Hmb : mbus (strip_bus b)).
+  { refine (conj Ha (conj Hn (conj Hnn (conj Hdm (conj Hlen (conj _ (conj Hcan (conj Hpair (conj Hgg Hes))))))))).
+    cbn [b_messages b_nodes b_enums strip_bus]. apply Forall_forall. intros xm Hxm. rewrite Forall_forall in Hm.
+    apply emessage_mmessage; [apply Hm; assumption|]. apply in_map_iff in Hxm. destruct Hxm as [m [<- Hin]].
+    cbn [m_signals strip_msg]. rewrite map_map. cbn [s_id strip_sig]. rewrite Forall_forall in Hids. apply (Hids m Hin). }
+  assert (HSX : forall m, In m (b_messages b) -> SX m = m_signals m).
+  { intros m Hin. apply SX_plain. intros s Hs. rewrite Forall_forall in Hm.
+    destruct (Hm (strip_msg m) (in_map strip_msg _ _ Hin)) as [_ [_ [_ [_ [_ [_ [_ [Hps _]]]]]]]]. rewrite Forall_forall in Hps.
+    destruct (Hps (strip_sig s) (in_map strip_sig _ _ Hs)) as [Hp [_ [_ [_ [_ [_ Hk]]]]]]. cbn [s_parent s_kind strip_sig] in Hp, Hk.
+    split; [unfold is_topb; rewrite Hp; reflexivity|unfold is_muxb; destruct (s_kind s); try reflexivity; destruct Hk]. }
+  assert (HTM : TM_bus b = T_bus b).
+  { unfold TM_bus, T_bus. f_equal. apply flat_map_ext_in_simple. intros n _. unfold TM_node, T_node. f_equal.
+    apply flat_map_ext_in_simple. intros m Hin. apply filter_In in Hin. destruct Hin as [Hin _]. unfold TM_msg, T_msg. rewrite (HSX m Hin). reflexivity. }
+  split; [exact Hg|]. split; [exact Hmb|]. split; [rewrite HTM; exact HT|]. auto.
+Qed.
